@@ -32,3 +32,24 @@ func VerifHarness_C18_K3_split_differential() {
 	vAssert((le1 == nil) == (le2 == nil) && bytes.Equal(l1, l2) && bytes.Equal(lr1, lr2), "K3d-splitlist-agree")
 	vAssert(intree.ListSize(uint64(l)) == ref.ListSize(uint64(l)), "K3d-listsize-agree")
 }
+
+// The streaming decoder's view of the next value (what DecodeBytes / Stream.Decode go through):
+// kind, size and verdict of Stream.Kind() on a buffer that starts with 3 symbolic header bytes,
+// in-tree against the reference — in particular the canonical-size rule (a payload of fewer than 56
+// bytes must not use the long form) at its exact boundary.
+func VerifHarness_C18_K3_stream_kind_differential() {
+	buf := make([]byte, 3+300)
+	copy(buf, vNondetBytes("hdr", 3))
+	s1 := intree.NewStream(bytes.NewReader(buf), uint64(len(buf)))
+	s2 := ref.NewStream(bytes.NewReader(append([]byte{}, buf...)), uint64(len(buf)))
+	k1, n1, e1 := s1.Kind()
+	k2, n2, e2 := s2.Kind()
+	vReach("kinds-read")
+	vAssert((e1 == nil) == (e2 == nil), "K3s-stream-same-verdict")
+	if e1 == nil && e2 == nil {
+		vReach("both-accept")
+		vAssert(int(k1) == int(k2) && n1 == n2, "K3s-stream-same-kind-and-size")
+	} else if e1 != nil && e2 != nil {
+		vAssert(e1.Error() == e2.Error(), "K3s-stream-same-error")
+	}
+}
